@@ -55,6 +55,7 @@ class Recorder:
         self.sample_slots = 0
         self.last_failure = None
         self.max_info = {}
+        self.max_case = {}
 
     def record(self, case, out, phase="generate"):
         self.evaluations += 1
@@ -65,6 +66,7 @@ class Recorder:
             if isinstance(v, (int, float)) and not isinstance(v, bool):
                 if k not in self.max_info or abs(v) > abs(self.max_info[k]):
                     self.max_info[k] = v
+                    self.max_case[k] = case
         if st == "inconclusive":
             r = out.get("reason", "?")
             self.inconclusive[r] = self.inconclusive.get(r, 0) + 1
@@ -219,7 +221,7 @@ def main(argv):
             raise ValueError(mode)
         res.update(ok=True, evaluations=rec.evaluations, nontrivial=sorted(rec.nontrivial), labels=rec.labels,
                    inconclusive=rec.inconclusive, excluded_hits=rec.excluded_hits, failures=rec.failures,
-                   samples=rec.samples[:6], max_info=rec.max_info)
+                   samples=rec.samples[:6], max_info=rec.max_info, max_case=rec.max_case)
     except BaseException as e:  # harness error -> exit 2 in the parent
         res["error"] = "".join(traceback.format_exception(type(e), e, e.__traceback__))[-6000:]
     res["wall_s"] = time.time() - t0
